@@ -59,3 +59,55 @@ package gohlslib
 //@   witness len(s.segments)
 //@   witness len(asF(s.nextSegment).parts)
 //@ end
+
+// ---------------------------------------------------------------------------------------
+// C11: client segment selection
+
+//@ func findSegmentWithInvPosition
+//@   props C11 C13
+//@   ensures (len(segments) - invPos < 0) ==> (result0 == nil && result1 == 0)
+//@   ensures (invPos >= 1 && len(segments) - invPos >= 0) ==> (result1 == len(segments) - invPos && result0 == segments[len(segments) - invPos])
+//@ end
+
+//@ func findSegmentWithID
+//@   props C11 C13
+//@   ensures (id - seqNo < 0 || id - seqNo >= len(segments)) ==> (result0 == nil && result1 == 0 && result2 == 0)
+//@   ensures (id - seqNo >= 0 && id - seqNo < len(segments)) ==> (result1 == id - seqNo && result0 == segments[id - seqNo] && result2 == len(segments) - (id - seqNo))
+//@ end
+
+// ---------------------------------------------------------------------------------------
+// C20: client segment queue (monitor with two notification channels)
+
+//@ struct clientSegmentQueue guarded_by &self.mutex: queue, didPush, didPull
+
+//@ func clientSegmentQueue.push
+//@   props C20
+//@   requires unheld(&q.mutex)
+//@   ensures len(q.queue) == atlock(len(q.queue)) + 1
+//@   ensures q.queue[len(q.queue)-1] == seg
+//@   ensures forall(i, (0 <= i && i < atlock(len(q.queue))) ==> q.queue[i] == atlock(q.queue[i]))
+//@   ensures atlock(len(q.queue)) == 0 ==> (calls("close") == 1 && callarg("close", 0, 0) == atlock(q.didPush) && q.didPush != atlock(q.didPush))
+//@   ensures atlock(len(q.queue)) != 0 ==> (calls("close") == 0 && q.didPush == atlock(q.didPush))
+//@   ensures q.didPull == atlock(q.didPull)
+//@ end
+
+//@ func clientSegmentQueue.pull
+//@   props C20
+//@   requires unheld(&q.mutex) && ctx != nil
+//@   ensures result1 ==> (atlock(len(q.queue)) >= 1 && result0 == atlock(q.queue[0]))
+//@   ensures result1 ==> (len(q.queue) == atlock(len(q.queue)) - 1
+//@        && forall(i, (0 <= i && i < len(q.queue)) ==> q.queue[i] == atlock(q.queue[i+1])))
+//@   ensures result1 ==> (calls("close") == 1 && callarg("close", 0, 0) == atlock(q.didPull) && q.didPull != atlock(q.didPull))
+//@   ensures !result1 ==> (result0 == nil && calls("close") == 0)
+//@   loop 1 invariant held(&q.mutex) && calls("close") == 0
+//@   loop 1 invariant atlock(q.queue) == q.queue && atlock(q.didPull) == q.didPull
+//@   loop 1 invariant forall(i, (0 <= i && i < len(q.queue)) ==> atlock(q.queue[i]) == q.queue[i])
+//@ end
+
+//@ func clientSegmentQueue.waitUntilSizeIsBelow
+//@   props C20
+//@   requires unheld(&q.mutex) && ctx != nil
+//@   ensures result ==> atlock(len(q.queue)) <= n
+//@   ensures calls("close") == 0
+//@   loop 1 invariant held(&q.mutex) && atlock(q.queue) == q.queue
+//@ end
